@@ -810,7 +810,7 @@ func runC01B1(c *Ctx) {
 		if mk, ok := bufRoot.(*ssa.Call); ok {
 			if n := calleeName(&mk.Call); n == "bytes.NewBufferString" || n == "bytes.NewBuffer" {
 				// the candidate text is built where it is concatenated (or, at the latest, where the buffer is made)
-				text := c01TextOf(mk.Call.Args[0])
+				text := c01TextOf(c01ResolveUp(c01TextOf(mk.Call.Args[0]))) // the text may arrive as a helper's parameter
 				var at ssa.Instruction = mk
 				if cat, ok := text.(*ssa.BinOp); ok {
 					at = cat
